@@ -67,6 +67,7 @@ func Run(t *testing.T, p *Plan, mk func() []Monitor) (res *Result) {
 			runInBubble(p, mk, res)
 		})
 	}()
+	collectRaces(res)
 	return res
 }
 
